@@ -1,12 +1,9 @@
+mod c21;
+
 fn main() {
     let ctx = mc_core::Ctx::from_args();
     match ctx.prop.as_str() {
-        "LIST" => {
-            for c in mc_proto::msgs::all_cases(false) {
-                let o = (c.run)();
-                println!("{}\t{}\t{}/{}\t{}\t{}\t{}", c.stack, c.protocol, c.variant, c.shape, o.bytes.as_ref().map(|b| b.len() as i64).unwrap_or(-1), o.failure.as_ref().map(|f| f.kind).unwrap_or("ok"), o.bytes.as_ref().map(|b| hex::encode(&b[..b.len().min(24)])).unwrap_or_default());
-            }
-        }
-        p => mc_core::report::machinery_failure(&format!("mc-seg does not serve {p} yet")),
+        "C21" => c21::run(ctx),
+        p => mc_core::report::machinery_failure(&format!("mc-seg does not serve {p}")),
     }
 }
